@@ -22,7 +22,15 @@ C == INSTANCE Components WITH
        FAdd <- BAdd, FSub <- BSub, FMul <- BMul, FNeg <- BNeg, FInv <- BInv,
        FInt <- BInt, FBit <- BBit, FShr <- BShr, FLow <- BLow, FPow2 <- BPow2,
        NB <- 255, EdD <- BEdwardsD, ScalarBits <- 252,
-       OrderM1 <- BigSub(RJ, BigOne), OrderBits <- RJBits, EightInvBits <- EightInvB
+       OrderM1 <- BigSub(RJ, BigOne), OrderBits <- RJBits, EightInvBits <- EightInvB, AdvMode <- "honest"
+
+\* the same composer with the adversarial range generator
+CB == INSTANCE Components WITH
+       FAdd <- BAdd, FSub <- BSub, FMul <- BMul, FNeg <- BNeg, FInv <- BInv,
+       FInt <- BInt, FBit <- BBit, FShr <- BShr, FLow <- BLow, FPow2 <- BPow2,
+       NB <- 255, EdD <- BEdwardsD, ScalarBits <- 252,
+       OrderM1 <- BigSub(RJ, BigOne), OrderBits <- RJBits, EightInvBits <- EightInvB,
+       AdvMode <- "closing-first"
 
 Quick == Tier = "quick"
 Map(s, Op(_)) == [i \in 1..Len(s) |-> Op(s[i])]
@@ -90,10 +98,10 @@ P3w(x, y, z, op) == << Wt(x, "x"), Wt(y, "y"), Wt(z, "z"), op >>
 (* ---- cases -------------------------------------------------------------- *)
 Cs(g) == [g |-> g]
 \* ranges of widths
-RangeW == IF Quick THEN <<0, 1, 2, 7, 8, 9, 64, 127, 253, 254, 255, 256>>
+RangeW == IF Quick THEN <<0, 1, 2, 7, 8, 9, 63, 64, 65, 128, 192, 253, 254, 255, 256>>
           ELSE [i \in 1..257 |-> i - 1]
-PairsW == IF Quick THEN <<0, 1, 2, 3, 64, 127>> ELSE [i \in 1..128 |-> i - 1]
-TruncW == IF Quick THEN <<0, 1, 8, 127, 253, 254>> ELSE [i \in 1..255 |-> i - 1]
+PairsW == IF Quick THEN <<0, 1, 2, 32, 64, 96, 127>> ELSE [i \in 1..128 |-> i - 1]
+TruncW == IF Quick THEN <<0, 1, 8, 64, 128, 192, 253, 254>> ELSE [i \in 1..255 |-> i - 1]
 DecW == IF Quick THEN <<1, 2, 8, 64, 252, 254, 255, 256>> ELSE [i \in 1..256 |-> i]
 
 WithVals(w) == Around(w) \o (IF Quick THEN << Rnd(w) >> ELSE Globals \o << Rnd(w) >>)
@@ -310,11 +318,22 @@ LogicAlias(p, xor, x, y) ==
               \o Overrides(honest, aliased, {7, 8})]
 AliasX == << BInt(5), BigLow(Rnd(81), 250) >>
 TruncAliasCases ==
-  Flat(Map(IF Quick THEN <<1, 8, 200, 254>> ELSE <<1, 2, 8, 64, 127, 128, 199, 200, 201, 250, 253, 254>>,
+  Flat(Map(IF Quick THEN <<1, 64, 128, 192, 254>> ELSE <<1, 2, 8, 64, 127, 128, 199, 200, 201, 250, 253, 254>>,
            LAMBDA n : Map(AliasX, LAMBDA x : TruncAlias(n, x))))
 LogicAliasCases ==
-  Flat(Map(IF Quick THEN <<1, 100, 127>> ELSE <<1, 2, 32, 64, 99, 100, 101, 125, 126, 127>>,
+  Flat(Map(IF Quick THEN <<1, 32, 64, 96, 127>> ELSE <<1, 2, 32, 64, 99, 100, 101, 125, 126, 127>>,
            LAMBDA p : Flat(Map(<<TRUE, FALSE>>, LAMBDA o : Map(AliasX, LAMBDA x : LogicAlias(p, o, x, Rnd(82)))))))
+
+\* ---- closing-first adversary for the range gadget (C09): for an out-of-range value the
+\* accumulators are chosen to satisfy the closing equalities; a digit constraint must fail
+RangeClosing(entry, n, x) ==
+  LET honest == C!RangeCheck(InState(x), 7, n).vals
+      adv == CB!RangeCheck(InState(x), 7, n).vals
+  IN [g |-> "range-closing", n |-> n, x |-> x, expect |-> RangeRel(n, x),
+      ops |-> << Wt(x, "x"), [op |-> entry, w |-> "x", bits |-> n] >> \o Overrides(honest, adv, {7})]
+RangeClosingCases ==
+  Flat(Map(IF Quick THEN <<0, 1, 2, 3, 8, 9, 64, 65, 254>> ELSE [i \in 1..255 |-> i - 1], LAMBDA w :
+       Map(<< P2(w), BAdd(P2(w), One), M1, BAdd(Rnd(w), P2(254)) >>, LAMBDA x : RangeClosing("range_bits", w, x))))
 
 \* ---- signed-digit adversaries (C14): digit vectors encoding s + q, s + r, q, through
 \* the seam over append_fixed_base_signed_digits (honest accumulators FOR THOSE DIGITS)
@@ -415,6 +434,7 @@ AllCases ==
     [] Family = "truncate-alias" -> TruncAliasCases
     [] Family = "logic-alias" -> LogicAliasCases
     [] Family = "fixed-digits" -> DigitCases
+    [] Family = "range-closing" -> RangeClosingCases
     [] Family = "truncate" -> TruncCases
     [] Family = "logic" -> LogicCases
     [] Family = "arith" -> ArithCases
